@@ -1006,7 +1006,10 @@ fn c04_etags() -> Vec<Option<Vec<u8>>> {
 }
 
 fn c04_mtimes() -> Vec<Option<(u64, u32)>> {
-    vec![None, Some((FIXED_SEC, 0)), Some((FIXED_SEC, 1_000_000)), Some((FIXED_SEC, 500_000_000)), Some((FIXED_SEC, 999_999_999))]
+    // the last two lie in the future (an hour ahead of the wall clock, and the year 3000): the
+    // statement compares with "the second in which the entity was last modified", whenever that is
+    let now = std::time::SystemTime::now().duration_since(std::time::UNIX_EPOCH).map(|d| d.as_secs()).unwrap_or(FIXED_SEC);
+    vec![None, Some((FIXED_SEC, 0)), Some((FIXED_SEC, 1_000_000)), Some((FIXED_SEC, 500_000_000)), Some((FIXED_SEC, 999_999_999)), Some((now + 3600, 250_000_000)), Some((32_503_680_000, 5))]
 }
 
 /// Options for an If-Match / If-None-Match header for an entity with this ETag.
@@ -1043,12 +1046,12 @@ impl Prop for C04 {
         "exploration"
     }
     fn rule(&self, ctx: &Ctx) -> String {
-        format!("full product: ETag {{absent, strong, weak, \"a, b\", \"x y\", non-ASCII opaque}} x mtime {{absent, whole second, +1ms, +500ms, +999999999ns}} x If-Match x If-None-Match (each: absent, *, all single tags and {} pairs over {{same-strong, same-weak, other-strong, other-weak, tag containing ', ', own tag + '-gzip', own tag with one byte changed}}, sampled 3-4 element lists) x If-Modified-Since x If-Unmodified-Since {{absent, second-1, second, second+1}} x GET/HEAD{}. Non-trivial = distinct case with at least one conditional header whose status was compared with the RFC 7232 model",
+        format!("full product: ETag {{absent, strong, weak, \"a, b\", \"x y\", non-ASCII opaque}} x mtime {{absent, whole second, +1ms, +500ms, +999999999ns, one hour ahead of the clock, year 3000}} x If-Match x If-None-Match (each: absent, *, all single tags and {} pairs over {{same-strong, same-weak, other-strong, other-weak, tag containing ', ', own tag + '-gzip', own tag with one byte changed}}, sampled 3-4 element lists) x If-Modified-Since x If-Unmodified-Since {{absent, second-1, second, second+1}} x GET/HEAD{}. Non-trivial = distinct case with at least one conditional header whose status was compared with the RFC 7232 model",
             if thorough(ctx) { "all" } else { "a fifth of the" }, if thorough(ctx) { " x 3 date syntaxes x with/without Range" } else { "" })
     }
     fn n_blocks(&self, ctx: &Ctx) -> usize {
         let mut rng = Rng::new(0);
-        30 * tag_list_options(None, thorough(ctx) && !ctx.leg.slow(), &mut rng).len()
+        42 * tag_list_options(None, thorough(ctx) && !ctx.leg.slow(), &mut rng).len()
     }
     fn exhaustive(&self, _: &Ctx) -> bool {
         true
@@ -1057,10 +1060,10 @@ impl Prop for C04 {
         let ctx = sink.ctx.clone();
         let big = thorough(&ctx) && !ctx.leg.slow();
         let etag = c04_etags()[b % 6].clone();
-        let mtime = c04_mtimes()[(b / 6) % 5];
-        let mut rng = Rng::from_parts(ctx.seed, &[4, (b % 30) as u64]);
+        let mtime = c04_mtimes()[(b / 6) % 7];
+        let mut rng = Rng::from_parts(ctx.seed, &[4, (b % 42) as u64]);
         let ims = tag_list_options(etag.as_deref(), big, &mut rng);
-        let im = ims[b / 30].clone();
+        let im = ims[b / 42].clone();
         let inms = ims.clone();
         let sec = mtime.map(|m| m.0).unwrap_or(FIXED_SEC);
         let styles: &[DateStyle] = if big { &[DateStyle::Imf, DateStyle::Rfc850, DateStyle::Asctime] } else { &[DateStyle::Imf] };
@@ -1128,6 +1131,20 @@ fn c05_judge(c: &ServeCase, o: &ServeObs, sink: &mut Sink) -> (Verdict, Option<u
         Some(r) => r,
         None => return (Verdict::Ok, None),
     };
+    // companions: preconditions that the request also carries must let it through to range
+    // selection, or the case is C04's subject
+    if ["if-match", "if-none-match", "if-modified-since", "if-unmodified-since"].iter().any(|h| c.hdr(h).is_some()) {
+        let im = c.hdr("if-match").map(cond::parse_tag_list);
+        let inm = c.hdr("if-none-match").map(cond::parse_tag_list);
+        let pre = match (hdr_date_secs(c.hdr("if-modified-since")), hdr_date_secs(c.hdr("if-unmodified-since"))) {
+            (Ok(ims), Ok(ius)) => cond::evaluate(c.ent.etag.as_deref(), c.ent.mtime.map(|m| m.0), im.as_ref(), inm.as_ref(), ims, ius),
+            _ => None,
+        };
+        if pre != Some(cond::Outcome::Continue) {
+            return (Verdict::DontCare("a precondition does not let the request through (C04)".into()), None);
+        }
+        sink.count("with_passing_precondition");
+    }
     let if_range = c.hdr("if-range");
     let honour = match if_range {
         None => Some(true),
@@ -1268,7 +1285,7 @@ impl Prop for C05 {
         "exploration"
     }
     fn rule(&self, _: &Ctx) -> String {
-        "full product: ETag {absent, strong, weak, strong with comma, strong with obs-text bytes} x mtime {absent, whole second, +500ms} x If-Range {absent, identical, same opaque strong/weak, W/ and w/ variants, different strong/weak, unterminated prefix, suffix, shorter, longer, upper-cased, unquoted, trailing space, two-tag list, *, empty, garbage, non-ASCII, dates -1s/equal/+1s/+1d in three syntaxes} x Range {single, first byte, suffix, multi (multipart-eligible), multi small, unsatisfiable, whole} x GET/HEAD x 2 lengths. Non-trivial = distinct case carrying Range whose status/Content-Range was compared with the If-Range rule".into()
+        "full product: ETag {absent, strong, weak, strong with comma, strong with obs-text bytes} x mtime {absent, whole second, +500ms} x If-Range {absent, identical, same opaque strong/weak, W/ and w/ variants, different strong/weak, unterminated prefix, suffix, shorter, longer, upper-cased, unquoted, trailing space, two-tag list, *, empty, garbage, non-ASCII, dates -1s/equal/+1s/+1d in three syntaxes} x Range {single, first byte, suffix, multi (multipart-eligible), multi small, unsatisfiable, whole} x companion precondition {none, If-Match: *, If-Match: own tag, If-Match list containing it, non-matching If-None-Match, later If-Unmodified-Since, earlier If-Modified-Since} x GET/HEAD x 2 lengths. Non-trivial = distinct case carrying Range whose status/Content-Range was compared with the If-Range rule".into()
     }
     fn n_blocks(&self, _: &Ctx) -> usize {
         5 * 3
@@ -1282,6 +1299,21 @@ impl Prop for C05 {
         let etag = etags[b % 5];
         let mtime = mtimes[b / 5];
         let ranges: [&[u8]; 7] = [b"bytes=1-3", b"bytes=0-0", b"bytes=-4", b"bytes=0-1, 5-6", b"bytes=0-0,2-2,4-4", b"bytes=5000-", b"bytes=0-"];
+        let sec = mtime.map(|m| m.0).unwrap_or(FIXED_SEC);
+        let mut companions: Vec<Option<(&str, Vec<u8>)>> = vec![
+            None,
+            Some(("if-match", b"*".to_vec())),
+            Some(("if-none-match", b"\"nope\"".to_vec())),
+            Some(("if-unmodified-since", fmt_date(sec + 1, DateStyle::Imf).into_bytes())),
+            Some(("if-modified-since", fmt_date(sec - 1, DateStyle::Imf).into_bytes())),
+        ];
+        if let Some(e) = etag {
+            companions.push(Some(("if-match", e.to_vec())));
+            companions.push(Some(("if-match", join_tags(&[b"\"zz\"", e], b", "))));
+        }
+        if sink.ctx.leg.slow() {
+            companions.truncate(2);
+        }
         for len in [1000u64, 12] {
             for ir in c05_if_range_values(etag, mtime) {
                 if sink.stopped() {
@@ -1289,15 +1321,21 @@ impl Prop for C05 {
                 }
                 for range in ranges {
                     for method in ["GET", "HEAD"] {
-                        let ent = EntSpec { len, etag: etag.map(|e| e.to_vec()), mtime, hdrs: vec![("content-type".into(), b"text/plain".to_vec())], plan: ChunkPlan::default(), fault: None, slow_calls: false, content_mode: 0 };
-                        let mut c = ServeCase::get(ent);
-                        c.method = method.into();
-                        c.extra_polls = 0;
-                        c.hdrs.push(("range".into(), range.to_vec()));
-                        if let Some(v) = &ir {
-                            c.hdrs.push(("if-range".into(), v.clone()));
+                        // alone, and next to each precondition that lets the request through
+                        for pre in &companions {
+                            let ent = EntSpec { len, etag: etag.map(|e| e.to_vec()), mtime, hdrs: vec![("content-type".into(), b"text/plain".to_vec())], plan: ChunkPlan::default(), fault: None, slow_calls: false, content_mode: 0 };
+                            let mut c = ServeCase::get(ent);
+                            c.method = method.into();
+                            c.extra_polls = 0;
+                            if let Some((k, v)) = pre {
+                                c.hdrs.push((k.to_string(), v.clone()));
+                            }
+                            c.hdrs.push(("range".into(), range.to_vec()));
+                            if let Some(v) = &ir {
+                                c.hdrs.push(("if-range".into(), v.clone()));
+                            }
+                            exec(&c, sink, &c05_judge);
                         }
-                        exec(&c, sink, &c05_judge);
                     }
                 }
             }
@@ -1307,7 +1345,7 @@ impl Prop for C05 {
         replay_serve(&c05_judge, case, sink);
     }
     fn floors(&self, _: &Ctx) -> Vec<(&'static str, u64)> {
-        vec![("must_honour", 100), ("must_ignore", 1000), ("date_equal_either", 10)]
+        vec![("must_honour", 100), ("must_ignore", 1000), ("date_equal_either", 10), ("with_passing_precondition", 1000)]
     }
     fn assumptions(&self) -> Vec<String> {
         vec!["an If-Range HTTP-date exactly equal to the Last-Modified second may be honoured or refused (not judged)".into()]
@@ -1740,13 +1778,30 @@ pub fn c07_cases_for_tuple(t: &[u32], slow: bool) -> Vec<ServeCase> {
     for (range, len, calls, faults) in all {
         for call in 0..calls {
             for (kind, at) in &faults {
-                // 0: plain, 1: Pending polls before the fault, 2: the stream reports an exact size_hint
-                for variant in 0..3 {
+                // 0: plain, 1: Pending polls before the fault, 2: the stream reports an exact size_hint,
+                // 3: every empty chunk stretched into a run of 40 empty chunks (one such run after the
+                // first chunk if the tuple has none)
+                for variant in 0..4 {
                     let pend = variant == 1;
                     if slow && (variant != 0 || (call > 0 && *at != 1)) {
                         continue;
                     }
-                    let plan = ChunkPlan { sizes: t.iter().map(|x| Sz::Abs(*x)).collect(), pend_mask: if pend { 0b0101 } else { 0 }, pend_period: if pend { 4 } else { 0 }, hint_exact: variant == 2 };
+                    let mut sizes: Vec<Sz> = t.iter().map(|x| Sz::Abs(*x)).collect();
+                    if variant == 3 {
+                        let has_empty = t.contains(&0);
+                        sizes = Vec::new();
+                        for (i, x) in t.iter().enumerate() {
+                            if *x == 0 {
+                                sizes.extend(std::iter::repeat(Sz::Abs(0)).take(40));
+                            } else {
+                                sizes.push(Sz::Abs(*x));
+                            }
+                            if !has_empty && i == 0 {
+                                sizes.extend(std::iter::repeat(Sz::Abs(0)).take(40));
+                            }
+                        }
+                    }
+                    let plan = ChunkPlan { sizes, pend_mask: if pend { 0b0101 } else { 0 }, pend_period: if pend { 4 } else { 0 }, hint_exact: variant == 2 };
                     let ent = EntSpec { len, etag: None, mtime: None, hdrs: vec![("content-type".into(), b"x/y".to_vec())], plan, fault: Some(Fault { call, at: *at, kind: kind.clone() }), slow_calls: false, content_mode: 0 };
                     let mut c = ServeCase::get(ent);
                     c.extra_polls = 3;
@@ -1770,7 +1825,7 @@ impl Prop for C07 {
         "fault_enumeration"
     }
     fn rule(&self, _: &Ctx) -> String {
-        "exhaustive: every entity stream of 1..4 chunks (1..5 in the thorough tier) with chunk lengths 0..3 x fault {early end, Err, one extra byte inside a chunk, one extra chunk} at every byte offset x response shape {200, single 206, multipart of 2 and 3 parts with the fault in each part} x {plain, Pending polls before the fault, stream with an exact size_hint}. Non-trivial = distinct case in which the faulty stream was actually requested and the terminal event / delivered byte count was compared with the rule".into()
+        "exhaustive: every entity stream of 1..4 chunks (1..5 in the thorough tier) with chunk lengths 0..3 x fault {early end, Err, one extra byte inside a chunk, one extra chunk} at every byte offset x response shape {200, single 206, multipart of 2 and 3 parts with the fault in each part} x {plain, Pending polls before the fault, stream with an exact size_hint, runs of 40 empty chunks}. Non-trivial = distinct case in which the faulty stream was actually requested and the terminal event / delivered byte count was compared with the rule".into()
     }
     fn n_blocks(&self, ctx: &Ctx) -> usize {
         if ctx.leg.slow() { 40 } else if thorough(ctx) { c07_tuples_upto(5).len() } else { c07_tuples().len() }
@@ -2270,6 +2325,13 @@ fn c14_firsts() -> Vec<Vec<(&'static str, &'static [u8])>> {
         vec![("if-none-match", b"*")],
         vec![("range", b"bytes=0-1, 5-6"), ("if-range", b"\"v1\"")],
         vec![("range", b"bytes=2-4"), ("if-range", b"\"v1\"")],
+        // two ranges that are together not smaller than the entity (len 1000): the whole entity is
+        // sent with 200, with and without a matching If-Range
+        vec![("range", b"bytes=0-600,500-999")],
+        vec![("range", b"bytes=0-600,500-999"), ("if-range", b"\"v1\"")],
+        // If-Range that does not match: Range ignored, 200
+        vec![("range", b"bytes=1-3"), ("if-range", b"\"other\"")],
+        vec![("range", b"bytes=1-3"), ("if-match", b"*"), ("if-none-match", b"\"nope\"")],
     ]
 }
 
@@ -2281,16 +2343,43 @@ impl Prop for C14 {
         "exploration"
     }
     fn rule(&self, _: &Ctx) -> String {
-        "all two-request histories over: ETag {absent, strong, weak} x mtime {absent, epoch, whole second, +1ms, +1ns, +999999999ns, now+1day, now+3s, now+1h, year 10000, year 33658} x entity header sets {none, 1, 3, repeated name} x first request {plain, single range, multi range, unsatisfiable, failing If-Match, matching If-None-Match, multi/single range + If-Range} x all 32 subsets of echoed validators (If-None-Match, If-Modified-Since, If-Match, If-Unmodified-Since, If-Range+Range) x GET/HEAD. Non-trivial = distinct history whose first response headers were checked and (if anything was echoed) whose second status was compared with the round-trip rule".into()
+        "all two-request histories over: ETag {absent, strong, weak} x mtime {absent, epoch, whole second, +1ms, +1ns, +999999999ns, now+1day, now+3s, now+1h, year 10000, year 33658} x entity header sets {none, 1, 3, repeated name} x first request {plain, single range, multi range, unsatisfiable, failing If-Match, matching If-None-Match, multi/single range + If-Range, multi-range answered with the whole entity with/without If-Range, non-matching If-Range, passing preconditions + range}; plus the 250-request shape product (Range kind x If-Range kind x precondition) for every ETag x header set, first response only x all 32 subsets of echoed validators (If-None-Match, If-Modified-Since, If-Match, If-Unmodified-Since, If-Range+Range) x GET/HEAD. Non-trivial = distinct history whose first response headers were checked and (if anything was echoed) whose second status was compared with the round-trip rule".into()
     }
     fn n_blocks(&self, ctx: &Ctx) -> usize {
-        3 * 11 * 4 + if ctx.leg.slow() { 0 } else { 10 }
+        3 * 11 * 4 + if ctx.leg.slow() { 0 } else { 10 } + 21
     }
     fn exhaustive(&self, _: &Ctx) -> bool {
         true
     }
     fn run_block(&self, b: usize, sink: &mut Sink) {
         let now = std::time::SystemTime::now().duration_since(std::time::UNIX_EPOCH).unwrap().as_secs();
+        let n_slow_cb = if sink.ctx.leg.slow() { 0 } else { 10 };
+        if b >= 3 * 11 * 4 + n_slow_cb {
+            // the request-shape product, first response only
+            let k = b - (3 * 11 * 4 + n_slow_cb);
+            let etags: [Option<&[u8]>; 3] = [None, Some(b"\"v1\""), Some(b"W/\"v1\"")];
+            let hdrs = c06_hdr_sets()[k / 3].clone();
+            let ent = EntSpec { len: 1000, etag: etags[k % 3].map(|e| e.to_vec()), mtime: Some((FIXED_SEC, 500_000_000)), hdrs, plan: ChunkPlan::default(), fault: None, slow_calls: false, content_mode: 0 };
+            for (i, shape) in crate::gen::shape_requests(&ent).into_iter().enumerate() {
+                if sink.ctx.leg.slow() && i % 7 != 0 {
+                    continue;
+                }
+                for m in ["GET", "HEAD"] {
+                    let mut c = ServeCase::get(ent.clone());
+                    c.method = m.into();
+                    c.extra_polls = 0;
+                    c.hdrs = shape.clone();
+                    let h = History { first: c, echo: 0, second_method: "GET".into() };
+                    if !sink.admit() {
+                        continue;
+                    }
+                    let (v, nt, rendered) = c14_run(&h, sink);
+                    sink.count("shape_product_requests");
+                    sink.record(v, nt, &|| rendered.clone());
+                }
+            }
+            return;
+        }
         if b >= 3 * 11 * 4 {
             // entity whose metadata callbacks each straddle a second boundary: Date and
             // Last-Modified must still be consistent (one block per case: they sleep)
@@ -2358,7 +2447,7 @@ impl Prop for C14 {
         sink.record(v, nt, &|| rendered.clone());
     }
     fn floors(&self, _: &Ctx) -> Vec<(&'static str, u64)> {
-        vec![("round_trips_judged", 1000), ("future_mtime_clamped", 10), ("past_mtime_truncated", 100), ("if_range_echo_206", 10), ("multipart_parts_header_checked", 10), ("first_status_304", 1), ("first_status_412", 1), ("first_status_416", 1), ("slow_callback_cases", 10)]
+        vec![("round_trips_judged", 1000), ("future_mtime_clamped", 10), ("past_mtime_truncated", 100), ("if_range_echo_206", 10), ("multipart_parts_header_checked", 10), ("first_status_304", 1), ("first_status_412", 1), ("first_status_416", 1), ("slow_callback_cases", 10), ("shape_product_requests", 5000)]
     }
     fn assumptions(&self) -> Vec<String> {
         vec!["Last-Modified is judged against the response's own Date (no clock read by the oracle); date echoes of a future-dated entity are not judged (their right answer depends on the clock of the second request); presence of Date without an mtime and headers of 400/405/413 are not judged".into()]
@@ -2432,11 +2521,11 @@ impl Prop for C15 {
         "exploration"
     }
     fn rule(&self, _: &Ctx) -> String {
-        "every request of the C01 workload (length x chunk plan x Range values x conditional combinations), the C06 multi-range workload and random C13 requests, sent once as GET and once as HEAD. Non-trivial = distinct request whose GET/HEAD status, header multisets (minus Date/Last-Modified), empty HEAD body and zero get_range calls were compared".into()
+        "every request of the C01 workload (length x chunk plan x Range values x conditional combinations), the C06 multi-range workload, the 250-request shape product (Range kind x If-Range kind x precondition) for 7 entity header sets incl. repeated header names, and random C13 requests, sent once as GET and once as HEAD. Non-trivial = distinct request whose GET/HEAD status, header multisets (minus Date/Last-Modified), empty HEAD body and zero get_range calls were compared".into()
     }
     fn n_blocks(&self, ctx: &Ctx) -> usize {
         let s = c01_space(ctx);
-        s.lens.len() * 2 + 32
+        s.lens.len() * 2 + 32 + c06_hdr_sets().len()
     }
     fn run_block(&self, b: usize, sink: &mut Sink) {
         let ctx = sink.ctx.clone();
@@ -2455,6 +2544,10 @@ impl Prop for C15 {
             if b % 2 == 1 {
                 ent.mtime = Some((FIXED_SEC, 500_000_000));
                 ent.hdrs.push(("x-extra".into(), b"1".to_vec()));
+                // repeated names: the comparison is between multisets
+                ent.hdrs.push(("link".into(), b"</a>; rel=prev".to_vec()));
+                ent.hdrs.push(("x-extra".into(), b"2".to_vec()));
+                ent.hdrs.push(("link".into(), b"</b>; rel=next".to_vec()));
             }
             let conds = cond_combos(&ent, &mut rng, if thorough(&ctx) { 60 } else { 20 });
             for rv in range_values(len, &mut rng) {
@@ -2487,6 +2580,25 @@ impl Prop for C15 {
                     run(&c, sink);
                 }
             }
+        } else if b >= s.lens.len() * 2 + 32 {
+            // the request-shape product for every entity header set
+            let k = b - (s.lens.len() * 2 + 32);
+            for (len, mtime) in [(1000u64, Some((FIXED_SEC, 500_000_000))), (12, None)] {
+                let mut ent = default_ent(len);
+                ent.hdrs = c06_hdr_sets()[k].clone();
+                ent.mtime = mtime;
+                for (i, shape) in crate::gen::shape_requests(&ent).into_iter().enumerate() {
+                    if ctx.leg.slow() && i % 11 != 0 {
+                        continue;
+                    }
+                    let mut c = ServeCase::get(ent.clone());
+                    c.cap = 1 << 12;
+                    c.extra_polls = 0;
+                    c.hdrs = shape;
+                    run(&c, sink);
+                    sink.count("shape_product_requests");
+                }
+            }
         } else {
             let n = if ctx.leg.slow() { 50 } else if thorough(&ctx) { 20_000 } else { 2_000 };
             for _ in 0..n {
@@ -2505,7 +2617,7 @@ impl Prop for C15 {
         sink.record(v, nt, &|| rendered.clone());
     }
     fn floors(&self, _: &Ctx) -> Vec<(&'static str, u64)> {
-        vec![("pair_status_200", 1000), ("pair_status_206", 1000), ("pair_status_304", 100), ("pair_status_412", 100), ("pair_status_416", 100), ("pair_multipart", 100)]
+        vec![("pair_status_200", 1000), ("pair_status_206", 1000), ("pair_status_304", 100), ("pair_status_412", 100), ("pair_status_416", 100), ("pair_multipart", 100), ("shape_product_requests", 1000)]
     }
     fn assumptions(&self) -> Vec<String> {
         vec!["the streaming_body half of the statement (same headers, no writer for HEAD) is decided by C17's workload and judged there and here via the C17 pairs".into()]
